@@ -7,13 +7,6 @@ non-push op codes of the script, for every expression.
 namespace Btc.Miniscript
 open Btc Gen.Miniscript
 
-/-- an op code above OP_16: what BIP141's op count counts. -/
-def Op.nonPush : Op → Bool
-  | .push _ | .pushnum _ | .op0 | .op1 => false
-  | _ => true
-
-def countNP (ops : List Op) : Nat := (ops.filter Op.nonPush).length
-
 @[simp] theorem countNP_nil : countNP [] = 0 := rfl
 @[simp] theorem countNP_cons (o : Op) (os : List Op) :
     countNP (o :: os) = o.nonPush.toNat + countNP os := by
